@@ -42,6 +42,8 @@ pub enum GAct {
     Other(u8),
     Poll,
     Tick,
+    /// long pause, index into `pauses`
+    Pause(u8),
 }
 
 #[derive(Clone)]
@@ -54,7 +56,9 @@ pub struct GState {
 pub struct GrammarSys {
     pub ch: u8,
     pub timeout: u64,
+    pub timeout_us: u64,
     pub cap: u64,
+    pub pauses: Vec<u64>,
     pub values: Vec<u8>,
     pub others: Vec<(u8, u8, u8)>,
 }
@@ -64,13 +68,24 @@ impl GrammarSys {
         GrammarSys {
             ch,
             timeout,
+            timeout_us: timeout.saturating_mul(1000),
             cap: cap_for(timeout, 1),
+            pauses: vec![(1 << 16) - 2, 1 << 20, 1 << 32],
             values: values.to_vec(),
             others: noncontrib_small::<PollingParameterNumberMessageScanner>(ch),
         }
     }
     fn tname(&self) -> String {
-        if self.timeout >= T_INF { "inf".into() } else { format!("{}ms", self.timeout) }
+        if self.timeout >= T_INF { "inf".into() } else if self.timeout_us % 1000 != 0 { format!("{}us", self.timeout_us) } else { format!("{}ms", self.timeout) }
+    }
+    pub fn with_timeout_us(mut self, us: u64) -> Self {
+        self.timeout_us = us;
+        self.timeout = (us + 999) / 1000;
+        self.cap = cap_for(self.timeout, 1);
+        self
+    }
+    fn expired(&self, age_ms: u64) -> bool {
+        age_ms.saturating_mul(1000) >= self.timeout_us
     }
     fn vio(&self, rule: &str, cls: &str, detail: impl FnOnce() -> String) -> Violation {
         Violation::lazy(rule, format!("C12/{}/{}/T={}", rule, cls, self.tname()), detail)
@@ -143,14 +158,14 @@ impl GrammarSys {
     pub fn gen_poll(&self, g: &G, now: u64) -> Option<(G, Vec<Tup>)> {
         match g {
             G::Sel { msb, lsb, reg, phase: Phase::PendMsb(a, since) } => {
-                if now - since >= self.timeout {
+                if self.expired(now - since) {
                     Some((G::Sel { msb: *msb, lsb: *lsb, reg: *reg, phase: Phase::Neutral }, vec![self.msg7(*msb, *lsb, *reg, *a)]))
                 } else {
                     Some((*g, vec![]))
                 }
             }
             G::Sel { phase: Phase::PendLsb(_, since), .. } => {
-                if now - since < self.timeout {
+                if !self.expired(now - since) {
                     Some((*g, vec![]))
                 } else {
                     None
@@ -182,7 +197,7 @@ impl System for GrammarSys {
     }
     fn init(&self) -> GState {
         set_now_millis(0);
-        GState { sc: PollingParameterNumberMessageScanner::new(Duration::from_millis(self.timeout)), now: 0, g: G::Start }
+        GState { sc: PollingParameterNumberMessageScanner::new(Duration::from_micros(self.timeout_us)), now: 0, g: G::Start }
     }
     fn actions(&self, s: &GState, out: &mut Vec<GAct>) {
         for &c in &[98u8, 99, 100, 101, 6, 38, 96, 97] {
@@ -199,6 +214,9 @@ impl System for GrammarSys {
             out.push(GAct::Poll);
         }
         out.push(GAct::Tick);
+        for i in 0..self.pauses.len() {
+            out.push(GAct::Pause(i as u8));
+        }
     }
     fn step(&self, s: &GState, a: &GAct) -> Step<GState> {
         let mut v = Vec::new();
@@ -224,6 +242,7 @@ impl System for GrammarSys {
                 Step { next: Some(GState { sc, now: s.now, g: g2 }), obs: out.map_or(0, |t| h64(&("poll", t))), violations: v }
             }
             GAct::Tick => Step { next: Some(GState { sc, now: s.now + 1, g: s.g }), obs: 0, violations: v },
+            GAct::Pause(i) => Step { next: Some(GState { sc, now: s.now + self.pauses[*i as usize], g: s.g }), obs: 0, violations: v },
         }
     }
     fn key(&self, s: &GState) -> (u128, G) {
@@ -239,10 +258,10 @@ impl System for GrammarSys {
         (debug_fp(&s.sc, s.now, self.cap), g)
     }
     fn n_classes(&self) -> usize {
-        4
+        5
     }
     fn class_name(&self, i: usize) -> String {
-        ["feed-in-language-cc", "feed-non-contributing", "poll", "tick-1ms"][i].to_string()
+        ["feed-in-language-cc", "feed-non-contributing", "poll", "tick-1ms", "long-pause"][i].to_string()
     }
     fn class_of(&self, a: &GAct) -> usize {
         match a {
@@ -250,6 +269,7 @@ impl System for GrammarSys {
             GAct::Other(..) => 1,
             GAct::Poll => 2,
             GAct::Tick => 3,
+            GAct::Pause(_) => 4,
         }
     }
     fn render(&self, a: &GAct) -> String {
@@ -261,10 +281,11 @@ impl System for GrammarSys {
             }
             GAct::Poll => format!("poll:{}", self.ch),
             GAct::Tick => "tick".to_string(),
+            GAct::Pause(i) => format!("pause:{}", self.pauses[*i as usize]),
         }
     }
     fn rust_preamble(&self) -> String {
-        format!("// build with RUSTFLAGS=\"--cfg helgoboss_midi_verif\" for the mock clock\n    let mut scanner = helgoboss_midi::PollingParameterNumberMessageScanner::new(std::time::Duration::from_millis({}));\n    let mut clock = 0u64;", self.timeout)
+        format!("// build with RUSTFLAGS=\"--cfg helgoboss_midi_verif\" for the mock clock\n    let mut scanner = helgoboss_midi::PollingParameterNumberMessageScanner::new(std::time::Duration::from_micros({}));\n    let mut clock = 0u64;", self.timeout_us)
     }
     fn rust_line(&self, a: &GAct) -> String {
         match a {
@@ -272,6 +293,7 @@ impl System for GrammarSys {
             GAct::Other(_) => format!("// feed {}", self.render(a)),
             GAct::Poll => format!("println!(\"{{:?}}\", scanner.poll(helgoboss_midi::test_util::channel({})));", self.ch),
             GAct::Tick => "clock += 1; helgoboss_midi::verif_hooks::set_now_millis(clock);".to_string(),
+            GAct::Pause(i) => format!("clock += {}; helgoboss_midi::verif_hooks::set_now_millis(clock);", self.pauses[*i as usize]),
         }
     }
 }
@@ -331,13 +353,13 @@ impl System for GrammarPair {
         let mut tmp = Vec::new();
         self.a.actions(&GState { sc: s.sc, now: s.now, g: s.ga }, &mut tmp);
         for x in tmp.drain(..) {
-            if x != GAct::Tick {
+            if !matches!(x, GAct::Tick | GAct::Pause(_)) {
                 out.push(PairAct::A(x));
             }
         }
         self.b.actions(&GState { sc: s.sc, now: s.now, g: s.gb }, &mut tmp);
         for x in tmp.drain(..) {
-            if x != GAct::Tick {
+            if !matches!(x, GAct::Tick | GAct::Pause(_)) {
                 out.push(PairAct::B(x));
             }
         }
@@ -460,6 +482,12 @@ pub fn run_c12(chk: &Check, tier: Tier) {
     for &t in &[0u64, 2] {
         for &c in &channels {
             let sys = GrammarSys::new(c, t, &v3);
+            let out = xs::explore(&sys, &Limits::default());
+            engine::record(chk, &sys, &out, None);
+        }
+        if t == 2 {
+            // a timeout with a sub-millisecond part
+            let sys = GrammarSys::new(channels[0], 2, &v3).with_timeout_us(1500);
             let out = xs::explore(&sys, &Limits::default());
             engine::record(chk, &sys, &out, None);
         }
